@@ -7,12 +7,51 @@ with a 10 s alarm per call (expiry = failure `hang`).  The failure signature is
 taken from the traceback (stable when line numbers move).  RecursionError keeps its own prefix
 `foreign:RecursionError@...`.
 
+WHAT IS OFFERED (case kinds; x = exhaustive plan, r = random)
+  tagx/posx/special/mutline/mutdoc/deep/apix (x), line/doc/api (r): as described in RULE below.
+  oddname (x)  identifiers which str.isdigit()/int() treat in a special way (thousands of digits -- beyond the 4300-digit
+               limit of int() --, leading zeros, superscript / Arabic-Indic / full-width / circled digits, vulgar
+               fractions, signs) in every place a document writes an identifier (ODD_TEMPLATES: S, L, C, P, E, F, G, O,
+               U, X lines, ID tags, list elements), through Gfa(text), add_line, Gfa(list); looked up (line,
+               try_get_line, segment, try_get_segment), removed (rm) and given to an existing line (line.name = ...).
+               The random `line`, `doc`, `api` and `graph` cases substitute / use the same identifiers now and then.
+  plist (x)    GFA1 paths of 1..5 segments with every number of overlaps from none to nseg+2 (CIGARs and `*`), alone,
+               with / before / after their segments, with and without the links (linear and circular), levels 0-3.
+               Random `doc` and `graph` cases add paths whose number of overlaps is arbitrary.
+  rawx (x), rawfile (r)   files given to Gfa.from_file whose bytes are not UTF-8: byte sequences of RAW_BYTES (lone
+               continuation and lead bytes, truncated sequences, surrogates, overlong forms, BOMs, 0xFF/0xFE) inserted
+               into / written over a valid document at its start, in a comment, a name, a tag, before a newline, at the
+               end, after 120 lines and next to the 8192-byte buffer boundary; the same documents written in UTF-16,
+               UTF-32, Latin-1, cp1252, UTF-8 with BOM; random byte damage of random documents.
+  deps (x)     removal of a line which has two dependants: s1, s2 and every ordered pair of lines which depend on s1
+               (DEPS1/DEPS2: dovetail, reverse, hairpin and self links / edges, containments, fragments, gaps, paths,
+               sets, ordered groups; with and without an identifier of their own) and, for GFA2, every group which
+               lists the first dependant and possibly s1 again (group of a group sharing a member; both orders in the
+               file): rm(name) of each of the four lines, rm(line object), line.disconnect(), each on a fresh graph,
+               then str(gfa) and gfa.validate().
+  apiseq (x)   every two-call sequence on one line object of a three-line graph (the segment s1; its dependant, one of
+               10 kinds): first a call which changes the line (delete(tag), set(tag, None) for every tag, set(field,
+               string) for every positional field, line.name = new / existing / empty / placeholder / invalid name,
+               disconnect(), gfa.rm(line)), then rm(line), disconnect(), connect(gfa), rm(old name), validate(),
+               rename, delete(tag), set(tag, value); then str(gfa), gfa.validate().
+  graph (r)    a random small graph (rnd_graph: several links per segment end, hairpin / self links, containments,
+               paths over links, fragments, gaps, groups of groups sharing members, mutually nested groups, forward
+               references, undefined references, placeholders identifiers) built by Gfa(list) or add_line; the line
+               objects are taken from Gfa.lines; then 1..6 random calls out of rm(name), rm(line), disconnect,
+               connect, set, set(tag, None), delete, rename, get, field_to_s, validate, str, add_line, line /
+               try_get_line, str(gfa), gfa.validate() -- also on line objects which an earlier call removed,
+               disconnected or renamed; at the end str(gfa), gfa.validate(), str() of every line object taken and
+               validate() of every line of the graph.  `shrink` removes steps and lines.
+
+`line.set(tag, None)` is made although None is not a string: it is the documented way to remove a tag
+(doc/tutorial/tags.rst); it is only made for tags the line has.
+
 NOT CHECKED
-  * files that are not valid UTF-8 (UnicodeDecodeError comes from Python's file object, inside
-    Gfa.read_file; switch INCLUDE_NON_UTF8_FILE on to probe it), unreadable / missing files (OSError);
-  * non-string arguments (None, numbers, objects) to the string-taking API: the property speaks of strings;
+  * unreadable / missing files (OSError comes from the operating system, not from the text offered);
+  * non-string arguments (numbers, objects; None except as above) to the string-taking API: the property speaks of strings;
   * bin/gfapy-validate's exit status;
-  * which gfapy.Error subclass is raised, and whether anything should have been raised at all (C04/C18);
+  * which gfapy.Error subclass is raised, whether anything should have been raised at all (C04/C18), and the state in
+    which a refused call leaves the graph (C09/C12/C13): only the class of what escapes is judged here;
   * memory exhaustion.
 """
 import itertools, os, tempfile
@@ -27,8 +66,14 @@ RULE = ("exhaustive: the short-string enumerations of C04 (every tag datatype, e
         "(documents also dialect rgfa, through Gfa(text), Gfa(list), add_line one by one and from_file); empty, blank, "
         "truncated and over-long lines; deep nesting (JSON depth 10..2000, group chains 10..2000); the string-taking API "
         "(line, segment, rm, try_get_line, try_get_segment, set, get, delete, field_to_s, validate, str) with identifiers, "
-        "field names and values from a pool of present / absent / malformed strings; random: random byte-ish strings, "
-        "random multi-point mutations, random API scripts.  Non-trivial: every case (each makes at least one call).")
+        "field names and values from a pool of present / absent / malformed strings; identifiers made of very many or of "
+        "non-ASCII digits in every identifier position; GFA1 paths with every number of overlaps; files whose bytes are "
+        "not UTF-8 (damaged at 8 kinds of places, other encodings); removal (by name, by object, disconnect) of each line "
+        "of every graph made of a segment and two lines depending on it or on each other; every two-call sequence "
+        "(change a line, then use it) on the lines of 10 three-line graphs; random: random byte-ish strings, random "
+        "multi-point mutations, random byte damage of files, random API scripts on a fixed document and on the line "
+        "objects of random small graphs with a rich dependency structure.  Non-trivial: every case (each makes at least "
+        "one call).")
 CASE_TIMEOUT = 120
 
 VERSIONS = [None, "gfa1", "gfa2"]
@@ -818,15 +863,14 @@ def apiseq_doc(ver, dep):
     return base + [tab[dep].format(id="d1", idtag="\tID:Z:d1") + "\tab:Z:x"]
 
 
-def apiseq_first_ops(l):
+def apiseq_first_ops(l, vlevel):
     """the calls which change the line l: one per tag (delete; set to None), per positional field (set to a string),
     renames, disconnect (public attributes of l only)"""
     ops = []
     for t in list(l.tagnames):
         ops.append(["delete", t]); ops.append(["unset", t])
     for j, f in enumerate(list(l.positional_fieldnames)):
-        ops.append(["set", f, APISEQ_VALUES[j % len(APISEQ_VALUES)]])
-        ops.append(["set", f, APISEQ_VALUES[(j + 4) % len(APISEQ_VALUES)]])
+        ops.append(["set", f, APISEQ_VALUES[(j + 3 * vlevel) % len(APISEQ_VALUES)]])
     for n in ("n1", "s2", "", "*", "a b"):
         ops.append(["rename", n])
     ops.append(["disconnect"]); ops.append(["rm_line"])
@@ -884,7 +928,7 @@ def probe_apiseq(P, ver, dep, vlevel):
         g, l = fresh(which)
         if g is None:
             return
-        first = apiseq_first_ops(l)
+        first = apiseq_first_ops(l, vlevel)
         for op1 in first:
             for op2 in APISEQ_SECOND:
                 g, l = fresh(which)
